@@ -224,6 +224,9 @@ func (r *run) Do(op string) string {
 			if err := r.standby.HandleSSEDataForVerif(data); err != nil {
 				return "error handle"
 			}
+			if msg.Type == ha.SyncTypeHeartbeat {
+				return fmt.Sprintf("heartbeat %d", msg.SequenceNum)
+			}
 			s := &msg.Sessions[0]
 			if msg.Type == ha.SyncTypeDelete {
 				return fmt.Sprintf("delete %s %d", s.SessionID, msg.SequenceNum)
@@ -232,6 +235,34 @@ func (r *run) Do(op string) string {
 		default:
 			return "empty"
 		}
+	case "heartbeat":
+		// broadcastLoop's keep-alive: it takes a slot of the client channel like a change does
+		if r.ch == nil {
+			r.active.BroadcastHeartbeatForVerif()
+			return "noclient"
+		}
+		before := len(r.ch)
+		msg := r.active.BroadcastHeartbeatForVerif()
+		if len(r.ch) == before {
+			return fmt.Sprintf("dropped %d", msg.SequenceNum)
+		}
+		return fmt.Sprintf("sent %d", msg.SequenceNum)
+	case "streamfull":
+		// a `full` message inside the stream: the active's real GET /ha/sessions payload handed to the
+		// standby's handleSSEData (the in-stream branch of the D41 repair)
+		if r.ch == nil {
+			return "noclient"
+		}
+		resp, err := http.Get(sharedServer().URL + "/ha/sessions")
+		if err != nil {
+			return "error get"
+		}
+		body, _ := io.ReadAll(resp.Body)
+		resp.Body.Close()
+		if err := r.standby.HandleSSEDataForVerif([]byte(strings.TrimSpace(string(body)))); err != nil {
+			return "error handle"
+		}
+		return "ok " + showTable(r.sStore.GetAllSessions())
 	case "store":
 		return showTable(r.sStore.GetAllSessions())
 	case "active":
@@ -276,10 +307,14 @@ func randOp(r *rand.Rand, ids, vals int) string {
 		return "attach"
 	case x < 93:
 		return "disconnect"
-	case x < 97:
+	case x < 95:
 		return "store"
-	default:
+	case x < 96:
 		return "recv"
+	case x < 98:
+		return "heartbeat"
+	default:
+		return "streamfull"
 	}
 }
 
@@ -307,6 +342,9 @@ func protocolSeq(r *rand.Rand, n int) []string {
 			}
 		case x < 6:
 			seq = append(seq, "broadcast", "deliver")
+			if up && r.Intn(3) == 0 {
+				seq = append(seq, pickOne(r, "heartbeat", "streamfull"))
+			}
 		case x < 8:
 			if up {
 				seq = append(seq, "disconnect")
@@ -333,12 +371,14 @@ func protocolSeq(r *rand.Rand, n int) []string {
 	return seq
 }
 
+func pickOne(r *rand.Rand, xs ...string) string { return xs[r.Intn(len(xs))] }
+
 var quiesce = []string{"broadcast", "broadcast", "broadcast", "broadcast", "broadcast", "broadcast", "broadcast",
 	"deliver", "deliver", "deliver", "deliver", "deliver", "deliver", "deliver", "store", "recv", "active"}
 
 func (comp) Gen(r *rand.Rand, tier string, emit func([]string)) {
 	if tier == "e2e" { // debugging aid: only the end-to-end part
-		genE2E(r, emit)
+		genE2E(r, 40, emit)
 		return
 	}
 	nRand, nProto := 2500, 1500
@@ -366,8 +406,11 @@ func (comp) Gen(r *rand.Rand, tier string, emit func([]string)) {
 		emit(append(seq, "broadcast", "deliver", "store"))
 	}
 	exhaustive(r, tier, emit)
+	// end to end over loopback: a small sample on every run, more in the thorough tier
 	if tier == "thorough" {
-		genE2E(r, emit)
+		genE2E(r, 40, emit)
+	} else {
+		genE2E(r, 3, emit)
 	}
 }
 
@@ -409,6 +452,15 @@ func exhaustive(r *rand.Rand, tier string, emit func([]string)) {
 						continue
 					}
 					n.ch--
+				case a == "heartbeat":
+					if !sh.att || sh.ch >= 1 {
+						continue
+					}
+					n.ch++
+				case a == "streamfull":
+					if !sh.att {
+						continue
+					}
 				case a == "attach":
 					if sh.att {
 						continue
@@ -425,15 +477,16 @@ func exhaustive(r *rand.Rand, tier string, emit func([]string)) {
 		}
 		rec(nil, depth, shadow{})
 	}
-	one := []string{"add s1 v1", "update s1 v2", "delete s1", "broadcast", "deliver", "fullsync", "attach", "disconnect"}
+	one := []string{"add s1 v1", "update s1 v2", "delete s1", "broadcast", "deliver", "fullsync", "attach", "disconnect",
+		"heartbeat", "streamfull"}
 	two := []string{"add s1 v1", "add s2 v2", "update s1 v3", "delete s1", "delete s2", "broadcast", "deliver",
-		"fullsync", "attach", "disconnect"}
+		"fullsync", "attach", "disconnect", "heartbeat", "streamfull"}
 	if tier == "thorough" {
 		enum(one, 7, func() bool { return true })
 		enum(two, 6, func() bool { return true })
 	} else {
-		enum(one, 7, func() bool { return r.Intn(400) == 0 })
-		enum(two, 6, func() bool { return r.Intn(400) == 0 })
+		enum(one, 7, func() bool { return r.Intn(1500) == 0 })
+		enum(two, 6, func() bool { return r.Intn(1500) == 0 })
 	}
 }
 
@@ -687,7 +740,7 @@ func (r *run) doE2E(f []string) string {
 	return "badop"
 }
 
-func genE2E(r *rand.Rand, emit func([]string)) {
+func genE2E(r *rand.Rand, n int, emit func([]string)) {
 	change := func(ids int) string {
 		id := fmt.Sprintf("s%d", 1+r.Intn(ids))
 		switch r.Intn(3) {
@@ -698,7 +751,7 @@ func genE2E(r *rand.Rand, emit func([]string)) {
 		}
 		return fmt.Sprintf("add %s v%d", id, 1+r.Intn(5))
 	}
-	for i := 0; i < 40; i++ {
+	for i := 0; i < n; i++ {
 		ids := 2 + r.Intn(3)
 		seq := []string{"e2e"}
 		up := false
